@@ -85,7 +85,7 @@ Theorem genesis_two_stage_per_module :
   /\ (forall p cur, snd (update_ht 2 p cur) = snd (init_genesis validate_ht validate_ht (fun _ => true) p cur))
   /\ (forall p cur, snd (update_sv 2 p cur) = snd (init_genesis validate_sv validate_sv (fun _ => true) p cur))
   /\ (forall p cur, snd (update_tk 2 p cur)
-                    = snd (init_genesis validate_tk validate_tk (fun p => tk_registered (c_denom (tk_fee p))) p cur)).
+                    = snd (init_genesis validate_tk validate_tk tk_fee_registered p cur)).
 Proof.
   repeat split; intros p cur;
     [apply (update_genesis_is_two_stage validate_cs validate_cs)
@@ -109,6 +109,26 @@ Theorem stored_params_always_validate :
   forall h : list pstep, ps_valid (run ps_init h).
 Proof. intros h. apply run_keeps_valid. exact init_valid. Qed.
 Print Assumptions stored_params_always_validate.
+
+(** token: besides validating, the stored issue fee is always denominated in a REGISTERED SYMBOL -- the
+    message handler rejects an unregistered symbol or a mere min unit ("fix: token MsgUpdateParams
+    rejects an issue fee denominated in an unregistered symbol"), InitGenesis panics on it -- so the
+    exported parameters can always be imported. *)
+Theorem token_fee_denom_always_registered :
+  forall h : list pstep, tk_fee_registered (ps_tk (run ps_init h)) = true.
+Proof. intros h. apply run_keeps_fee_registered. vm_compute. reflexivity. Qed.
+Print Assumptions token_fee_denom_always_registered.
+
+Example c16_token_fee_denom_cases :
+  let mk d := mkTk (Some 400000000000000000) (mkCoin d (Some 60000)) (Some 100000000000000000) true 0 in
+  (* registered symbols: accepted by the authority's message and by genesis *)
+  update_tk 0 (mk 5) tk_defaults = (Ok, mk 5) /\ update_tk 2 (mk 5) tk_defaults = (Ok, mk 5)
+  (* a registered MIN UNIT only / an unregistered valid denom: validates, yet rejected (message) or panics (genesis) *)
+  /\ validate_tk (mk 6) = Ok /\ update_tk 0 (mk 6) tk_defaults = (Rej, tk_defaults) /\ update_tk 2 (mk 6) tk_defaults = (Abort, tk_defaults)
+  /\ validate_tk (mk 2) = Ok /\ update_tk 0 (mk 2) tk_defaults = (Rej, tk_defaults)
+  (* an invalid denom: rejected by validation *)
+  /\ update_tk 0 (mk 3) tk_defaults = (Rej, tk_defaults).
+Proof. cbv zeta. repeat split; vm_compute; reflexivity. Qed.
 
 Theorem stored_params_stay_valid :
   forall (h : list pstep) (s : pstate), ps_valid s -> ps_valid (run s h).
